@@ -129,7 +129,7 @@ protected:
      * case the method should be overridden by a sub class.
      */
     virtual bool allowProcessReferences() { return false; }
-    std::map<std::string, frame_t> dynamicFrames;
+    std::map<std::string, std::vector<frame_t>> dynamicFrames;
 
 public:
     explicit ExpressionBuilder(Document& doc);
